@@ -213,6 +213,34 @@ where
         }
         out.case(format!("poly mullag {} {} {} {}", f, 2 * n, enc(&ys), enc(&zs)), show(r));
     }
+    // the gadget polynomial routines write into buffers their callers reuse: the result must not depend on what
+    // the output buffer held before (zero operands, operands with zero seeds, repeated calls)
+    {
+        use prio::flp::gadgets::{Mul, ParallelSum, ParallelSumGadget};
+        use prio::flp::Gadget;
+        for &n in &[2usize, 4, 8] {
+            let a = rand_vec::<F>(rng, n);
+            let b = rand_vec::<F>(rng, n);
+            let c = rand_vec::<F>(rng, n);
+            let z = vec![F::zero(); n];
+            let fresh = |p: &Vec<F>, q: &Vec<F>| hp::poly_mul_lagrange::<F>(2 * n, p, q).unwrap();
+            let g = Mul::new(n - 1);
+            for (what, p, q) in [("zero * c", &z, &c), ("c * zero", &c, &z), ("a * b", &a, &b)] {
+                let mut outp = fresh(&a, &b);
+                outp.iter_mut().for_each(|x| *x += F::one());
+                let r = Gadget::<F>::eval_poly(&g, &mut outp, &[p.clone(), q.clone()]);
+                out.oracle(r.is_ok() && outp == fresh(p, q), || format!("Mul::eval_poly {} {} into a used buffer, n={}", f, what, n), || "the result depends on the previous content of the output buffer".into());
+            }
+            let ps = ParallelSum::<F, Mul>::new(Mul::new(n - 1), 2);
+            let want: Vec<F> = fresh(&a, &b);
+            for (what, inp) in [("[a, b, 0, c]", vec![a.clone(), b.clone(), z.clone(), c.clone()]), ("[0, c, a, b]", vec![z.clone(), c.clone(), a.clone(), b.clone()]), ("[a, b, c, 0]", vec![a.clone(), b.clone(), c.clone(), z.clone()])] {
+                let mut outp = vec![F::zero(); 2 * n];
+                let r = Gadget::<F>::eval_poly(&ps, &mut outp, &inp);
+                out.oracle(r.is_ok() && outp == want, || format!("ParallelSum::eval_poly {} {} n={}", f, what, n), || "a zero factor must contribute nothing: expected a*b".into());
+            }
+            out.count("poly.reused-buffers");
+        }
+    }
     // monomial-basis helpers
     for _ in 0..(if thorough { 300 } else { 60 }) {
         let (lp, lq) = (1 + rng.below(6) as usize, 1 + rng.below(5) as usize);
